@@ -78,6 +78,13 @@ def run_meta(r):
         r_ff3 = css.CSSFontFaceRule(style="%s: %s" % (name, value))
         ff.append(bool(r_ff3.style.getProperties(all=True)[0].valid))
         ffrule = bool(r_ff2.valid) == all(bool(p.valid) for p in r_ff2.style.getProperties(all=True))
+        # a sheet is valid iff all its declarations are - wherever they sit: inside @media, inside @font-face
+        s_m = cssutils.parseString("b { left: 1px } @media print { a { %s: %s } }" % (name, value))
+        s_f = cssutils.parseString("b { left: 1px } @font-face { font-family: x; src: url(x); %s: %s }" % (name, value))
+        f_decl = [p for p in s_f.cssRules[1].style.getProperties(all=True) if p.name == css.Property(name, value).name] if s_f.cssRules.length > 1 else []
+        s_p = cssutils.parseString("b { left: 1px } @page { %s: %s }" % (name, value))
+        nested = {"page_sheet": bool(s_p.valid), "media_sheet": bool(s_m.valid), "ff_sheet": bool(s_f.valid), "ff_decl": bool(f_decl[-1].valid) if f_decl else True,
+                  "ff_others": all(bool(p.valid) for p in s_f.cssRules[1].style.getProperties(all=True) if p not in f_decl) if s_f.cssRules.length > 1 else True}
         sheet = cssutils.parseString("a { %s: %s }" % (name, value))
         rule = sheet.cssRules[0]
         s2 = cssutils.parseString(sheet.cssText)
@@ -101,13 +108,13 @@ def run_meta(r):
         def dom(s):
             return [[(p.name, p.value, p.priority) for p in x.style.getProperties(all=True)] for x in s.cssRules]
         return {"out": "ok", "fontface": ff, "fontface_rule_conj": ffrule, "base": bool(base), "spellings": spellings, "roundtrip": roundtrip, "origins": origins,
-                "rulevalid": bool(rule.valid), "sheetvalid": bool(sheet.valid),
+                "rulevalid": bool(rule.valid), "sheetvalid": bool(sheet.valid), "nested": nested,
                 "text_validate_on": on.cssText.decode(), "text_validate_off": off.cssText.decode(),
                 "dom_validate_on": json_safe(dom(on)), "dom_validate_off": json_safe(dom(off))}
     out, o = outcome(f)
     if out != "ok":
         o = {"out": out, "fontface": [], "fontface_rule_conj": True, "base": False, "spellings": [], "roundtrip": False, "origins": [], "rulevalid": False, "sheetvalid": False,
-             "text_validate_on": "", "text_validate_off": "", "dom_validate_on": [], "dom_validate_off": []}
+             "nested": {"page_sheet": False, "media_sheet": False, "ff_sheet": False, "ff_decl": False, "ff_others": True}, "text_validate_on": "", "text_validate_off": "", "dom_validate_on": [], "dom_validate_off": []}
     return o
 
 
